@@ -3,6 +3,7 @@
 package main
 
 import (
+	"bytes"
 	"fmt"
 	"net"
 	"strconv"
@@ -64,6 +65,110 @@ func init() {
 		time.Sleep(50 * time.Millisecond)
 		if atomic.LoadInt64(&sent) < 100 {
 			return "too-little-load"
+		}
+		return "ok"
+	})
+	// race tcpchurn <base port> <millis>: a REAL service whose only backend entry is a host name with TCP transport; the
+	// name resolves to two loopback addresses, one of which keeps vanishing from and returning to the resolution while
+	// requests flow (every return is a new TCPBackend that dials on its first dispatch; every removal closes it). During
+	// the churn nothing is counted. Afterwards, with both addresses back, twenty probe requests must all reach a backend:
+	// the listener's loop, the rotation and the resolver's notifications are all still alive.
+	vReg("race tcpchurn", func(a []string) string {
+		base, _ := strconv.Atoi(a[0])
+		ms, _ := strconv.Atoi(a[1])
+		host := fmt.Sprintf("churn%d.test", base)
+		var got int64
+		for i := 0; i < 2; i++ {
+			ln, err := net.Listen("tcp", fmt.Sprintf("127.0.1.%d:%d", i+1, base+10))
+			if err != nil {
+				return "not-run"
+			}
+			go func(ln net.Listener) {
+				for {
+					c, err := ln.Accept()
+					if err != nil {
+						return
+					}
+					go func(c net.Conn) {
+						defer c.Close()
+						buf := make([]byte, 65536)
+						var acc []byte
+						for {
+							n, err := c.Read(buf)
+							acc = append(acc, buf[:n]...)
+							for {
+								k := bytes.Index(acc, []byte("\r\n\r\n"))
+								if k < 0 {
+									break
+								}
+								atomic.AddInt64(&got, 1)
+								acc = acc[k+4:]
+							}
+							if err != nil {
+								return
+							}
+						}
+					}(c)
+				}
+			}(ln)
+		}
+		y := fmt.Sprintf("proxies:\n- name: svc.test\n  listens:\n  - address: 127.0.0.1\n    udp-port: %d\n    backends:\n    - tcp://%s:%d\n", base+30, host, base+10)
+		cfg, err := loadConfigFromReader(strings.NewReader(y))
+		if err != nil {
+			return "config-error"
+		}
+		for _, proxy := range cfg.Proxies {
+			if err := startProxy(proxy, createPreConfigRoute(proxy), createPreConfigHostResolver(cfg.Hosts, proxy)); err != nil {
+				return "not-run"
+			}
+		}
+		both := []string{"127.0.1.1", "127.0.1.2"}
+		dynamicHostResolver.addressResolved(host, both, nil)
+		time.Sleep(60 * time.Millisecond)
+		ua, err := net.ListenUDP("udp", &net.UDPAddr{IP: net.IPv4(127, 0, 2, 1), Port: base + 31})
+		if err != nil {
+			return "not-run"
+		}
+		defer ua.Close()
+		lst := &net.UDPAddr{IP: net.IPv4(127, 0, 0, 1), Port: base + 30}
+		req := func(k int) []byte {
+			return []byte(fmt.Sprintf("OPTIONS sip:svc.test SIP/2.0\r\nVia: SIP/2.0/UDP 127.0.2.1:%d;branch=z9hG4bKtc%d\r\nFrom: <sip:a@ua.test>;tag=f%d\r\nTo: <sip:svc.test>\r\nCall-ID: tc-%d-%d\r\nCSeq: 1 OPTIONS\r\nContent-Length: 0\r\n\r\n", base+31, k, k, base, k))
+		}
+		var stop int32
+		var wg sync.WaitGroup
+		wg.Add(2)
+		go func() {
+			defer wg.Done()
+			for k := 0; atomic.LoadInt32(&stop) == 0; k++ {
+				ua.WriteToUDP(req(k), lst)
+				time.Sleep(150 * time.Microsecond)
+			}
+		}()
+		go func() {
+			defer wg.Done()
+			for k := 0; atomic.LoadInt32(&stop) == 0; k++ {
+				dynamicHostResolver.addressResolved(host, both[:1], nil)
+				time.Sleep(time.Duration(300+(k*377)%1500) * time.Microsecond)
+				dynamicHostResolver.addressResolved(host, both, nil)
+				time.Sleep(time.Duration(200+(k*613)%1200) * time.Microsecond)
+			}
+		}()
+		time.Sleep(time.Duration(ms) * time.Millisecond)
+		atomic.StoreInt32(&stop, 1)
+		wg.Wait()
+		dynamicHostResolver.addressResolved(host, both, nil)
+		time.Sleep(200 * time.Millisecond)
+		before := atomic.LoadInt64(&got)
+		for k := 0; k < 20; k++ {
+			ua.WriteToUDP(req(1000000+k), lst)
+			time.Sleep(2 * time.Millisecond)
+		}
+		deadline := time.Now().Add(4 * time.Second)
+		for atomic.LoadInt64(&got) < before+20 && time.Now().Before(deadline) {
+			time.Sleep(5 * time.Millisecond)
+		}
+		if d := atomic.LoadInt64(&got) - before; d < 20 {
+			return fmt.Sprintf("probes-not-delivered-%d-of-20", d)
 		}
 		return "ok"
 	})
